@@ -393,7 +393,7 @@ Section SignProofs.
   (** payload: determined by, and determines, algorithm name and canonical content *)
   Theorem payload_injective : forall a vs a' vs', wf_values vs -> wf_values vs' ->
     payload a vs = payload a' vs' -> a = a' /\ canon (JObj vs) = canon (JObj vs').
-  Proof.
+  Proof using ser_injective canon_obj_lookup canon_str.
     intros a vs a' vs' W W' H. unfold payload in H.
     apply ser_injective in H; [|apply wf_payload_obj; exact W|apply wf_payload_obj; exact W'].
     split.
@@ -407,14 +407,14 @@ Section SignProofs.
 
   Theorem payload_order_insensitive : forall a vs vs', NoDup (map fst vs) -> Permutation vs vs' ->
     payload a vs = payload a vs'.
-  Proof.
+  Proof using ser_perm.
     intros a vs vs' N P. unfold payload. apply ser_payload_congr. apply ser_perm; assumption.
   Qed.
 
   (** what the signed map contains *)
   Theorem sign_values_mandatory : forall c repo penv f, In f mandatory_fields ->
     aget f (sign_values c repo penv) = field_value c repo f.
-  Proof.
+  Proof using.
     intros c repo penv f M. unfold sign_values.
     rewrite fold_id_get_notin by (apply env_values_not_mandatory; exact M).
     apply mandatory_cases in M.
@@ -424,7 +424,7 @@ Section SignProofs.
   Theorem sign_values_env : forall c repo penv n v, NoDup (map fst penv) ->
     aget n penv = Some v -> ahas n (cs_env c) = false ->
     aget (env_prefix ++ n)%string (sign_values c repo penv) = Some (JStr v).
-  Proof.
+  Proof using.
     intros c repo penv n v N G S. unfold sign_values.
     rewrite fold_id_get by (apply env_values_nodup; exact N).
     rewrite aget_env_values, S, G. reflexivity.
@@ -433,13 +433,13 @@ Section SignProofs.
   Theorem sign_values_keys : forall c repo penv f,
     In f (map fst (sign_values c repo penv)) <->
     In f mandatory_fields \/ exists n, f = (env_prefix ++ n)%string /\ ahas n penv = true /\ ahas n (cs_env c) = false.
-  Proof.
+  Proof using.
     intros c repo penv f. unfold sign_values. rewrite fold_id_keys, env_values_keys.
     rewrite map_map. cbn [fst]. rewrite map_id. tauto.
   Qed.
 
   Theorem sign_values_nodup : forall c repo penv, NoDup (map fst (sign_values c repo penv)).
-  Proof.
+  Proof using.
     intros c repo penv. unfold sign_values. apply fold_id_nodup.
     rewrite map_map. cbn [fst]. rewrite map_id. exact mandatory_nodup.
   Qed.
@@ -448,17 +448,17 @@ Section SignProofs.
   Theorem sign_fields : forall k c repo penv,
     sg_fields (sign K alg_of sgn k c repo penv) = Some (map fst (sort_keys (sign_values c repo penv))) /\
     sg_alg (sign K alg_of sgn k c repo penv) = alg_of k.
-  Proof. intros. split; reflexivity. Qed.
+  Proof using. intros. split; reflexivity. Qed.
 
   Lemma sign_value : forall k c repo penv,
     sg_value (sign K alg_of sgn k c repo penv) = sgn k (payload (alg_of k) (sign_values c repo penv)).
-  Proof. reflexivity. Qed.
+  Proof using. reflexivity. Qed.
 
   (** sign_values only reads command / env / plugins / matrix *)
   Lemma sign_values_ext : forall c c0 repo penv,
     cs_command c = cs_command c0 -> cs_env c = cs_env c0 -> cs_plugins c = cs_plugins c0 -> cs_matrix c = cs_matrix c0 ->
     sign_values c repo penv = sign_values c0 repo penv.
-  Proof.
+  Proof using.
     intros c c0 repo penv H1 H2 H3 H4. unfold sign_values, env_values, field_value.
     rewrite H1, H2, H3, H4. reflexivity.
   Qed.
@@ -467,7 +467,7 @@ Section SignProofs.
   Theorem verify_true_inv : forall pk sg c repo penv,
     verify PK vrf pk sg c repo penv = true ->
     exists p k2, verify_payload sg c repo penv = Some p /\ pk = pub k2 /\ sg_value sg = sgn k2 p.
-  Proof.
+  Proof using vrf_ideal.
     intros pk sg c repo penv H. unfold verify in H.
     destruct (verify_payload sg c repo penv) as [p|]; [|discriminate].
     apply vrf_ideal in H. destruct H as (k2 & E1 & E2). exists p, k2. auto.
@@ -478,7 +478,7 @@ Section SignProofs.
     values_for_fields c repo fields = Some vals ->
     require_keys (fold_left (fun acc kv => aset (fst kv) (snd kv) acc) (env_values c penv) vals) fields = Some req ->
     verify_payload sg c repo penv = Some (payload (sg_alg sg) req).
-  Proof.
+  Proof using.
     intros sg c repo penv fields vals req H0 H1 H2 H3 H4. unfold verify_payload. rewrite H0.
     destruct fields as [|f0 fs]; [congruence|]. rewrite H2. cbn [negb]. rewrite H3.
     cbv zeta. rewrite H4. reflexivity.
@@ -490,7 +490,7 @@ Section SignProofs.
       values_for_fields c repo fields = Some vals /\
       require_keys (fold_left (fun acc kv => aset (fst kv) (snd kv) acc) (env_values c penv) vals) fields = Some req /\
       p = payload (sg_alg sg) req.
-  Proof.
+  Proof using.
     intros sg c repo penv p H. unfold verify_payload in H.
     destruct (sg_fields sg) as [[|f0 fs]|] eqn:F; try discriminate.
     destruct (all_mandatory (f0 :: fs)) eqn:A; cbn [negb] in H; [|discriminate].
@@ -508,7 +508,7 @@ Section SignProofs.
       (forall f, In f mandatory_fields -> aget f req = field_value c repo f) /\
       (forall f j, aget f req = Some j -> ~ In f mandatory_fields ->
           exists n v, f = (env_prefix ++ n)%string /\ j = JStr v /\ In (n, v) penv /\ ahas n (cs_env c) = false).
-  Proof.
+  Proof using.
     intros sg c repo penv p H. apply verify_payload_some_inv in H.
     destruct H as (fields & vals & req & F & Ne & A & V & R & ->).
     apply rk_spec in R. destruct R as (N & Ks & Gs).
@@ -532,8 +532,8 @@ Section SignProofs.
     (forall n v, aget n penv = Some v -> aget n penv' = Some v) ->
     verify_payload (sign K alg_of sgn k c repo penv) c repo penv' =
       Some (payload (alg_of k) (sign_values c repo penv)).
-  Proof.
-    intros k c repo penv penv' N N' Sub.
+  Proof using ser_perm.
+    intros k c repo penv penv' N N' Sub. clear ser_injective canon_str.
     set (sv := sign_values c repo penv).
     set (fields := map fst (sort_keys sv)).
     assert (Fk : forall f, In f fields <-> In f (map fst sv)) by (intros f; apply sort_keys_in).
@@ -576,7 +576,7 @@ Section SignProofs.
     NoDup (map fst penv) -> NoDup (map fst penv') ->
     (forall n v, aget n penv = Some v -> aget n penv' = Some v) ->
     verify PK vrf (pub k) (sign K alg_of sgn k c repo penv) c repo penv' = true.
-  Proof.
+  Proof using vrf_ideal ser_perm.
     intros k c repo penv penv' N N' Sub. unfold verify.
     rewrite (sign_then_verify_payload k c repo penv penv' N N' Sub).
     rewrite sign_value. apply vrf_ideal. exists k. split; reflexivity.
@@ -600,7 +600,7 @@ Section SignProofs.
       (forall f j, aget f req = Some j -> ~ In f mandatory_fields ->
           exists n v, f = (env_prefix ++ n)%string /\ j = JStr v /\ In (n, v) penv' /\ ahas n (cs_env c') = false) /\
       canon (JObj req) = canon (JObj (sign_values c repo penv)).
-  Proof.
+  Proof using vrf_ideal sgn_inj ser_injective canon_obj_lookup canon_str.
     intros k c repo penv pk sg' c' repo' penv' Hv Hver Wsv Wreq.
     apply verify_true_inv in Hver. destruct Hver as (p & k2 & Hp & -> & Hs).
     rewrite Hv, sign_value in Hs. apply sgn_inj in Hs. destruct Hs as [Hk <-].
@@ -623,7 +623,7 @@ Section SignProofs.
       verify_payload sg' c' repo' penv' = Some (payload (sg_alg sg') req) /\
       (forall f, In f (map fst req) <-> In f fields) /\
       canon (JObj req) = canon (JObj (sign_values c repo penv)).
-  Proof.
+  Proof using vrf_ideal sgn_inj ser_injective canon_obj_lookup canon_str.
     intros k c repo penv pk sg' c' repo' penv' Hv Hver Wsv Wreq.
     destruct (verify_sound_strong k c repo penv pk sg' c' repo' penv' Hv Hver Wsv)
       as (H1 & H2 & fields & req & F & _ & Hp & _ & Ks & _ & _ & Ec).
@@ -639,7 +639,7 @@ Section SignProofs.
     (forall f, In f mandatory_fields -> aget f req = field_value c repo f) ->
     (forall f j, aget f req = Some j -> ~ In f mandatory_fields -> exists v, j = JStr v) ->
     wf_values req.
-  Proof.
+  Proof using.
     intros c repo req Wf N Gm Ge. unfold wf_values. rewrite wf_json_obj.
     rewrite (nodup_keys_of_NoDup req N). cbn [andb]. apply forallb_forall.
     intros [f j] I. cbn [snd]. apply (in_aget _ _ _ N) in I.
@@ -658,7 +658,7 @@ Section SignProofs.
       verify_payload sg' c' repo' penv' = Some (payload (sg_alg sg') req) /\
       (forall f, In f (map fst req) <-> In f fields) /\
       canon (JObj req) = canon (JObj (sign_values c repo penv)).
-  Proof.
+  Proof using vrf_ideal sgn_inj ser_injective canon_obj_lookup canon_str.
     intros k c repo penv pk sg' c' repo' penv' Hv Hver Wsv Wf.
     destruct (verify_sound_strong k c repo penv pk sg' c' repo' penv' Hv Hver Wsv)
       as (H1 & H2 & fields & req & F & _ & Hp & _ & Ks & _ & _ & Ec).
@@ -670,7 +670,7 @@ Section SignProofs.
   Lemma sign_values_wf : forall c repo penv,
     (forall f j, In f mandatory_fields -> field_value c repo f = Some j -> wf_json j = true) ->
     wf_values (sign_values c repo penv).
-  Proof.
+  Proof using.
     intros c repo penv Wf. apply (wf_values_of_fields c repo); auto.
     - apply sign_values_nodup.
     - intros f M. apply sign_values_mandatory. exact M.
@@ -692,7 +692,7 @@ Section SignProofs.
       (forall f j, aget f req = Some j -> ~ In f mandatory_fields ->
           exists n v, f = (env_prefix ++ n)%string /\ j = JStr v /\ In (n, v) penv' /\ ahas n (cs_env c') = false) /\
       (forall f, option_map canon (aget f req) = option_map canon (aget f (sign_values c repo penv))).
-  Proof.
+  Proof using vrf_ideal sgn_inj ser_injective canon_obj_lookup canon_str.
     intros k c repo penv pk sg' c' repo' penv' Hv Hver Wsv Wreq.
     destruct (verify_sound_strong k c repo penv pk sg' c' repo' penv' Hv Hver Wsv)
       as (_ & _ & fields & req & F & _ & _ & N & Ks & Gm & Ge & Ec).
@@ -704,7 +704,7 @@ Section SignProofs.
   Lemma lookup_keys : forall (l l' : list (string * json)) f,
     option_map canon (aget f l) = option_map canon (aget f l') ->
     (In f (map fst l) <-> In f (map fst l')).
-  Proof.
+  Proof using.
     intros l l' f H. rewrite <- !ahas_in. unfold ahas.
     destruct (aget f l), (aget f l'); cbn [option_map] in H; try discriminate; tauto.
   Qed.
@@ -715,7 +715,7 @@ Section SignProofs.
     wf_values (sign_values c repo penv) ->
     (forall req, verify_payload sg' c' repo' penv' = Some (payload (sg_alg sg') req) -> NoDup (map fst req) -> wf_values req) ->
     forall f, (exists fields, sg_fields sg' = Some fields /\ In f fields) <-> In f (map fst (sign_values c repo penv)).
-  Proof.
+  Proof using vrf_ideal sgn_inj ser_injective canon_obj_lookup canon_str.
     intros k c repo penv pk sg' c' repo' penv' Hv Hver Wsv Wreq f.
     destruct (verify_sound_full k c repo penv pk sg' c' repo' penv' Hv Hver Wsv Wreq)
       as (fields & req & F & Ks & _ & _ & L).
@@ -731,7 +731,7 @@ Section SignProofs.
     (forall req, verify_payload sg' c' repo' penv' = Some (payload (sg_alg sg') req) -> NoDup (map fst req) -> wf_values req) ->
     forall f, In f mandatory_fields ->
       option_map canon (field_value c' repo' f) = option_map canon (field_value c repo f).
-  Proof.
+  Proof using vrf_ideal sgn_inj ser_injective canon_obj_lookup canon_str.
     intros k c repo penv pk sg' c' repo' penv' Hv Hver Wsv Wreq f M.
     destruct (verify_sound_full k c repo penv pk sg' c' repo' penv' Hv Hver Wsv Wreq)
       as (fields & req & F & Ks & Gm & _ & L).
@@ -744,7 +744,7 @@ Section SignProofs.
     wf_values (sign_values c repo penv) ->
     (forall req, verify_payload sg' c' repo' penv' = Some (payload (sg_alg sg') req) -> NoDup (map fst req) -> wf_values req) ->
     cs_command c' = cs_command c.
-  Proof.
+  Proof using vrf_ideal sgn_inj ser_injective canon_obj_lookup canon_str.
     intros k c repo penv pk sg' c' repo' penv' Hv Hver Wsv Wreq.
     assert (M : In "command" mandatory_fields) by (cbn; auto).
     pose proof (verify_sound_field k c repo penv pk sg' c' repo' penv' Hv Hver Wsv Wreq _ M) as H.
@@ -757,7 +757,7 @@ Section SignProofs.
     wf_values (sign_values c repo penv) ->
     (forall req, verify_payload sg' c' repo' penv' = Some (payload (sg_alg sg') req) -> NoDup (map fst req) -> wf_values req) ->
     repo' = repo.
-  Proof.
+  Proof using vrf_ideal sgn_inj ser_injective canon_obj_lookup canon_str.
     intros k c repo penv pk sg' c' repo' penv' Hv Hver Wsv Wreq.
     assert (M : In "repository_url" mandatory_fields) by (cbn; auto 6).
     pose proof (verify_sound_field k c repo penv pk sg' c' repo' penv' Hv Hver Wsv Wreq _ M) as H.
@@ -772,7 +772,7 @@ Section SignProofs.
     NoDup (map fst penv) -> NoDup (map fst penv') ->
     forall n v, aget n penv = Some v -> ahas n (cs_env c) = false ->
       aget n penv' = Some v /\ ahas n (cs_env c') = false.
-  Proof.
+  Proof using vrf_ideal sgn_inj ser_injective canon_obj_lookup canon_str.
     intros k c repo penv pk sg' c' repo' penv' Hv Hver Wsv Wreq N N' n v G S.
     destruct (verify_sound_full k c repo penv pk sg' c' repo' penv' Hv Hver Wsv Wreq)
       as (fields & req & F & Ks & _ & Ge & L).
@@ -788,7 +788,7 @@ Section SignProofs.
   Corollary verify_other_key_fails : forall k c repo penv pk sg' c' repo' penv',
     sg_value sg' = sg_value (sign K alg_of sgn k c repo penv) -> pk <> pub k ->
     verify PK vrf pk sg' c' repo' penv' = false.
-  Proof.
+  Proof using vrf_ideal sgn_inj.
     intros k c repo penv pk sg' c' repo' penv' Hv Hk.
     destruct (verify PK vrf pk sg' c' repo' penv') eqn:V; [|reflexivity].
     exfalso. apply verify_true_inv in V. destruct V as (p & k2 & _ & -> & Hs).
@@ -814,7 +814,7 @@ Section SignProofs.
     | Some ss' => Some (SGroup key g ss' rem)
     | None => None
     end.
-  Proof.
+  Proof using.
     intros k repo penv key g ss rem. cbn [sign_step].
     assert (E : forall l,
       (fix go (ss : list step) : option (list step) :=
@@ -833,7 +833,7 @@ Section SignProofs.
     sign_steps K alg_of sgn k repo penv (x :: r) = Some ss' ->
     exists x' r', ss' = x' :: r' /\ sign_step K alg_of sgn k repo penv x = Some x' /\
                   sign_steps K alg_of sgn k repo penv r = Some r'.
-  Proof.
+  Proof using.
     intros k repo penv x r ss' H. cbn [sign_steps] in H.
     destruct (sign_step K alg_of sgn k repo penv x) as [x'|]; [|discriminate].
     destruct (sign_steps K alg_of sgn k repo penv r) as [r'|]; [|discriminate].
@@ -843,7 +843,7 @@ Section SignProofs.
   Lemma sign_steps_none_Forall : forall k repo penv ss,
     Forall (fun s => sign_step K alg_of sgn k repo penv s = None <-> has_unknown s = true) ss ->
     (sign_steps K alg_of sgn k repo penv ss = None <-> existsb has_unknown ss = true).
-  Proof.
+  Proof using.
     intros k repo penv ss F. induction F as [|x r Hx Fr IH]; cbn [sign_steps existsb].
     - split; discriminate.
     - rewrite orb_true_iff, <- Hx, <- IH.
@@ -854,7 +854,7 @@ Section SignProofs.
 
   Lemma sign_step_none : forall k repo penv s,
     sign_step K alg_of sgn k repo penv s = None <-> has_unknown s = true.
-  Proof.
+  Proof using.
     intros k repo penv. induction s using step_ind'; try (cbn; split; discriminate).
     - rewrite sign_step_group. cbn [has_unknown].
       rewrite <- (sign_steps_none_Forall k repo penv ss H).
@@ -864,7 +864,7 @@ Section SignProofs.
 
   Theorem sign_steps_refuses_iff : forall k repo penv ss,
     sign_steps K alg_of sgn k repo penv ss = None <-> existsb has_unknown ss = true.
-  Proof.
+  Proof using.
     intros k repo penv ss. apply sign_steps_none_Forall. apply Forall_forall.
     intros s _. apply sign_step_none.
   Qed.
@@ -872,7 +872,7 @@ Section SignProofs.
   Lemma sign_steps_frame_Forall : forall k repo penv ss,
     Forall (fun s => forall s', sign_step K alg_of sgn k repo penv s = Some s' -> erase_sig s' = erase_sig s) ss ->
     forall ss', sign_steps K alg_of sgn k repo penv ss = Some ss' -> map erase_sig ss' = map erase_sig ss.
-  Proof.
+  Proof using.
     intros k repo penv ss F. induction F as [|x r Hx Fr IH]; intros ss' H.
     - cbn in H. inversion H; subst. reflexivity.
     - apply sign_steps_cons_inv in H. destruct H as (x' & r' & -> & Sx & Sr).
@@ -881,7 +881,7 @@ Section SignProofs.
 
   Lemma sign_step_frame : forall k repo penv s s',
     sign_step K alg_of sgn k repo penv s = Some s' -> erase_sig s' = erase_sig s.
-  Proof.
+  Proof using.
     intros k repo penv. induction s using step_ind'; intros s' E;
       try (cbn in E; inversion E; subst; reflexivity).
     rewrite sign_step_group in E.
@@ -892,7 +892,7 @@ Section SignProofs.
 
   Theorem sign_steps_frame : forall k repo penv ss ss',
     sign_steps K alg_of sgn k repo penv ss = Some ss' -> map erase_sig ss' = map erase_sig ss.
-  Proof.
+  Proof using.
     intros k repo penv ss ss'. apply sign_steps_frame_Forall. apply Forall_forall.
     intros s _ s'. apply sign_step_frame.
   Qed.
@@ -902,7 +902,7 @@ Section SignProofs.
               forall c, In c (commands_deep s') -> cs_sig c = Some (sign K alg_of sgn k c repo penv)) ss ->
     forall ss', sign_steps K alg_of sgn k repo penv ss = Some ss' ->
     forall c, In c (concat (map commands_deep ss')) -> cs_sig c = Some (sign K alg_of sgn k c repo penv).
-  Proof.
+  Proof using.
     intros k repo penv ss F. induction F as [|x r Hx Fr IH]; intros ss' H c I.
     - cbn in H. inversion H; subst. destruct I.
     - apply sign_steps_cons_inv in H. destruct H as (x' & r' & -> & Sx & Sr).
@@ -914,7 +914,7 @@ Section SignProofs.
   Lemma sign_step_signs : forall k repo penv s s',
     sign_step K alg_of sgn k repo penv s = Some s' ->
     forall c, In c (commands_deep s') -> cs_sig c = Some (sign K alg_of sgn k c repo penv).
-  Proof.
+  Proof using.
     intros k repo penv. induction s using step_ind'; intros s' E c0 I;
       try (cbn in E; inversion E; subst; cbn in I; contradiction).
     - cbn [sign_step] in E. inversion E; subst. cbn [commands_deep In] in I.
@@ -931,7 +931,7 @@ Section SignProofs.
     sign_steps K alg_of sgn k repo penv ss = Some ss' ->
     forall c, In c (concat (map commands_deep ss')) ->
       cs_sig c = Some (sign K alg_of sgn k c repo penv).
-  Proof.
+  Proof using.
     intros k repo penv ss ss'. apply sign_steps_signs_Forall. apply Forall_forall.
     intros s _ s'. apply sign_step_signs.
   Qed.
@@ -942,7 +942,7 @@ Section SignProofs.
     forall c sg, In c (concat (map commands_deep ss')) -> cs_sig c = Some sg ->
       verify PK vrf (pub k) sg c repo penv = true /\ sg_alg sg = alg_of k /\
       sg_fields sg = Some (map fst (sort_keys (sign_values c repo penv))).
-  Proof.
+  Proof using vrf_ideal ser_perm.
     intros k repo penv ss ss' N S c sg I E.
     rewrite (sign_steps_signs_all k repo penv ss ss' S c I) in E. inversion E; subst sg.
     split; [apply sign_then_verify; auto|]. split; reflexivity.
